@@ -136,7 +136,7 @@ PROFILES = {
             ("streams-deferred", dict(n_defs=(5, 12), n_listen=(2, 5), max_defer=2, posts=0.2, nest=0.6, self_merge=True,
                                       weights=W(defer=5, split=2, map=5, filter=2, merge=7, orelse=3, snapshot=2, hold=1.5, gate=1, once=1)))],
     "C03": [("diamonds", dict(n_defs=(6, 16), sends_per_txn=(2, 4), samples=0.3, wfchecks=0.5, intxn_defs=0.3, n_listen=(2, 5),
-                              weights=W(lift2=6, liftn=2, merge=6, snapshot=3, mapc=3, map=3, csink=4, ssink=4, hold=2, switchs=1, switchc=1, sloop=0.7, cloop=0.7))),
+                              weights=W(lift2=6, liftn=2, merge=6, snapshot=3, mapc=3, map=3, csink=4, ssink=4, hold=2, switchs=1, switchc=1, sloop=0.7, cloop=0.7, deepdiamond=0.25))),
             # a deferred transaction right behind the one that spawned it: nothing of the first may be seen by the second
             ("diamonds-deferred", dict(n_defs=(6, 14), sends_per_txn=(1, 3), samples=0.3, n_listen=(2, 5), max_defer=2, posts=0.2,
                                        weights=W(defer=4, split=1.5, lift2=4, merge=7, orelse=2, snapshot=3, mapc=2, map=4, csink=3, ssink=4, hold=2)))],
@@ -161,23 +161,29 @@ PROFILES = {
     "C13": [("lifts", dict(samples=0.9, n_defs=(5, 14), intxn_defs=0.3, sends_per_txn=(1, 4), lazies=0.2,
                            weights=W(mapc=5, lift2=6, liftn=3, csink=4, hold=3, ssink=2, updates=2, value=1, switchc=0.7, cloop=0.7, snapmapc=3, snaplazy=1)))],
     "C14": [("brackets-deferred", dict(scoped=0.6, deep_nest=0.5, nest=0.9, obs=0.7, max_defer=3, posts=0.3, weights=W(defer=5, split=3, hold=2, csink=2))),
-            ("brackets", dict(scoped=0.7, deep_nest=0.7, nest=0.95, obs=0.6, intxn_defs=0.3, n_txn=(4, 10), malformed=False))],
+            ("brackets", dict(scoped=0.7, deep_nest=0.7, nest=0.95, obs=0.6, intxn_defs=0.3, n_txn=(4, 10), malformed=False)),
+            # transactions opened by constructors that run inside the pre_eot phase of the outermost close (lazy thunks building FRP)
+            ("brackets-dynamic", dict(intxn_defs=0.9, nest=0.95, scoped=0.3, obs=0.5, n_listen=(0, 2), n_defs=(3, 8), sends_per_txn=(1, 3),
+                                      weights=W(switchdyn=5, switchlate=4, switchlatec=4, latelisten=2, csink=4, ssink=3, map=3, hold=2, merge=2)))],
     "C15": [("sinks", dict(coalesce_sends=True, sends_per_txn=(1, 5), deep_nest=0.4, scoped=0.3, nest=0.8, samples=0.5, weights=W(ssinkc=6, csink=4, ssink=2, hold=3))),
             ("sinks-posted", dict(coalesce_sends=True, sends_per_txn=(1, 4), nest=0.9, samples=0.4, postsends=0.7, posts=0.2, max_defer=1,
                                   weights=W(ssinkc=7, csink=3, ssink=2, hold=3, merge=2, defer=1)))],
     "C17": [("lazies", dict(lazies=0.9, samples=0.3, n_txn=(4, 14), weights=W(mapc=4, lift2=3, liftn=1, holdlazy=3, hold=3, csink=4, accum=2, accumlazy=2, collectlazy=1, cloop=1, snaplazy=3, snapshot=2)))],
     "C18": [("router", dict(n_defs=(4, 10), drops=0.3, gcs=0.3, drop_routers=0.3, rerequest=0.4, weights=W(router=5, route=4, ssink=4, map=3, merge=3, hold=1)))],
     "C06": [("drops", dict(drops=0.8, gcs=0.5, memchecks=0.5, n_defs=(5, 14), n_txn=(4, 12),
-                           weights=W(sloop=1.5, cloop=1.5, accum=2, collect=2, switchs=1.5, switchc=1, router=1, defer=1, lift2=2, hold=3, snapshot=3)))],
+                           weights=W(sloop=1.5, cloop=1.5, accum=2, collect=2, switchs=1.5, switchc=1, router=1, defer=1, lift2=2, lift2d=1.5, snapshotn=1, hold=3, snapshot=3)))],
     "C07": [("periodic-switching", dict(n_defs=(4, 9), n_txn=(0, 2), n_listen=(1, 3), periodic=12, samples=0.0, obs=0.0, unlisten=0.0,
                                         weights=W(switchdyn=6, switchs=3, switchc=2, csink=5, ssink=4, hold=2, map=2, accum=1, router=1))),
             ("abandon-once-loops", dict(leakcheck=True, n_defs=(3, 8), n_txn=(1, 5), unlisten=0.2, no_switchc_in_loop=True,
                                         weights=W(sloop=5, cloop=2, once=5, snapshot=5, hold=4, accum=1.5, merge=2, map=1, ssink=3, csink=1))),
             ("abandon", dict(leakcheck=True, drops=0.4, gcs=0.3, memchecks=0.3, n_txn=(0, 6), unlisten=0.3, no_switchc_in_loop=True,
-                             weights=W(sloop=1.5, cloop=1.5, accum=2, collect=2, switchs=1.5, switchc=1, router=1, defer=1, split=0.5, lift2=2, hold=3, snapshot=3, mapc=2)))],
+                             weights=W(sloop=1.5, cloop=1.5, accum=2, collect=2, switchs=1.5, switchc=1, router=1, defer=1, split=0.5, lift2=2, lift2d=1.5, hold=3, snapshot=3, mapc=2)))],
     "C09": [("switch-defer", dict(n_defs=(5, 11), sends_per_txn=(1, 4), max_defer=2, samples=0.3,
                                   weights=W(switchs=6, switchc=2, defer=5, split=1, csink=4, ssink=3, map=2, hold=2, merge=2, once=1))),
-            ("reorder", dict(n_defs=(4, 12), samples=0.4, weights=W(defer=0.7, lift2=2, accum=1, switchs=0.5)))],
+            ("reorder", dict(n_defs=(4, 12), samples=0.4, weights=W(defer=0.7, lift2=2, accum=1, switchs=0.5))),
+            # graphs that grow while events flow: streams, cells and listeners built inside handlers
+            ("built-in-flight", dict(n_defs=(4, 10), samples=0.5, sends_per_txn=(1, 3), n_listen=(1, 3),
+                                     weights=W(switchlatec=6, switchlate=3, latelisten=4, snapmapc=2, map=5, hold=2, csink=2, ssink=4, merge=2)))],
 }
 
 
